@@ -381,9 +381,10 @@ fn run_opt(a: &Args) {
             for f in &flags {
                 cx.st.count(&format!("forced:{}", f));
             }
+            // (searchkit has further cost families for other properties; this stream draws only these two)
             let family = match fam {
                 CostFamily::TieFree => "random_tie_free",
-                CostFamily::TieRich => "random_tie_rich",
+                _ => "random_tie_rich",
             };
             add_opt_case(&mut cx, family, &w, &q, hk_name(hk), ck);
         }
